@@ -139,6 +139,20 @@ class Body:
                     if isinstance(e, dict) and "f" in e:
                         self.upvar_names.setdefault(e["i"], d["name"])
                         break
+        self._fill_upvar_names()
+
+    def _fill_upvar_names(self):
+        """`_k = _1.N` where `_k` carries a debug name: the name of upvar N (async fn arguments)."""
+        for blk in self.blocks[:3]:
+            for s in blk["stmts"]:
+                if s["k"] == "Assign" and not s["lhs"].get("p") and s["rv"]["k"] == "Use":
+                    o = s["rv"]["ops"][0]
+                    if o["k"] in ("copy", "move") and o["p"]["l"] == 1:
+                        pr = o["p"].get("p") or []
+                        if len(pr) == 1 and isinstance(pr[0], dict) and "f" in pr[0]:
+                            nm = self.names.get(s["lhs"]["l"])
+                            if nm:
+                                self.upvar_names.setdefault(pr[0]["i"], nm)
 
     @property
     def file(self):
